@@ -29,7 +29,7 @@
     results seen by the client = results scripted, byte-identical). *)
 From Verif Require Import Lib.Base Lib.Bytes Lib.Wire Generated.YubiAgentGen
   Model.Wire Model.Slots Model.AgentStd Model.C13Check Proofs.WireProofs Proofs.SlotsProofs
-  Proofs.AgentStdProofs.
+  Proofs.AgentStdProofs Model.Frames Model.Serve Model.ServeStd Proofs.ServeStdProofs.
 Local Open Scope N_scope.
 
 (** ** Regenerated facts = the documented ones *)
@@ -265,6 +265,16 @@ Theorem c13_std_oracle : forall ag q,
   exists seen client, through ag q = Val (seen, client) /\ oracle_std q seen (ag q) client = true.
 Proof. exact oracle_std_model. Qed.
 Print Assumptions c13_std_oracle.
+
+(** the same through the model of ServeAgent's loop: the client's request frame
+    is read, dispatched to the standard server, answered by the served agent,
+    and the reply frame decodes to the agent's answer; the connection stays open *)
+Theorem c13_std_through_serve : forall e ag q,
+  req_ok q -> blen (enc_req q) <= spec_max ->
+  resp_for q (ag 0%nat q) = true -> resp_ok (ag 0%nat q) ->
+  client_std e ag q = Val (returned (ag 0%nat q), EndNil).
+Proof. exact client_std_fidelity. Qed.
+Print Assumptions c13_std_through_serve.
 
 (** key constraints: any lifetime, confirmation flag and extensions come back *)
 Theorem c13_std_constraints : forall life conf exts fuel,
